@@ -3,13 +3,18 @@
 (* MC_Frontend, FrontendTrace and FrontendObs, and the deviation flags read from the environment. *)
 EXTENDS Integers, Sequences, FiniteSets, TLC, Json, IOUtils
 
+Flag0(name) == IF name \in DOMAIN IOEnv THEN IOEnv[name] = "1" ELSE FALSE
 MC_Sources  == {"a", "sub/b", "sub/c"}
 MC_Modules  == {"sub/c", "lib/m"}
 MC_DirOf    == [f \in MC_Sources \cup MC_Modules |-> IF f \in {"sub/b", "sub/c"} THEN "sub" ELSE IF f = "lib/m" THEN "lib" ELSE "root"]
 MC_Dirs     == {"sub"}
 MC_Requires == [s \in MC_Sources \cup MC_Modules |-> IF s = "a" THEN {"lib/m"} ELSE IF s = "sub/b" THEN {"sub/c", "lib/m"} ELSE {}]
-MC_Configs  == {"c1", "c2"}
-MC_SerKey   == [c \in MC_Configs |-> c]
+\* c2+skip = c2 whose remove_empty_do rule carries skip_files: ['**/a.lua'];  c2+read = c2 with the readable generator
+MC_Configs  == IF Flag0("MORECONFIGS") THEN {"c1", "c2", "c2+skip", "c2+read"} ELSE {"c1", "c2"}
+\* the configuration hash: DevSerLosesFilters = the serialised configuration drops rule filters (F-C19-a, fixed)
+MC_SerKey   == [c \in MC_Configs |-> IF Flag0("DevSerLosesFilters") /\ c = "c2+skip" THEN "c2" ELSE c]
+\* what a configuration amounts to on a given file: the skip filter only changes the output of `a`
+MC_Eff      == [c \in MC_Configs |-> [s \in MC_Sources |-> IF c = "c2+skip" /\ s # "a" THEN "c2" ELSE c]]
 MC_MaxSteps == IF "MAXSTEPS" \in DOMAIN IOEnv THEN atoi(IOEnv.MAXSTEPS) ELSE 5
 Flag(name)  == IF name \in DOMAIN IOEnv THEN IOEnv[name] = "1" ELSE FALSE
 MC_DevEarlyReturn       == Flag("DevEarlyReturn")
